@@ -754,3 +754,40 @@ package client
 //@   loop 1:
 //@     invariant -1 <= rangeindex && rangeindex < len(node.Children) || rangeindex == -1
 //@     decreases len(node.Children) - rangeindex
+
+// ImportNodes: the top node gets the given parent and the " (import)" marker on its description points and nothing
+// else of the decoded tree is touched before the ids are checked (preserveIDs) or replaced; every node of the tree is
+// sent, parents before children. ReplaceIDs (recursion over element pointers with a captured map) is trusted here and
+// decided by the bounded leg.
+//@ extern client.ReplaceIDs(nodes, parent)
+//@   modifies nodes, allof(data.NodeEdgeChildren), allof(data.Point)
+//@   ensures nodes.Parent == parent
+//@ extern client.GetRootNode(nc)
+//@   modifies state(nc)
+//@   ensures busOps(nc) == old(busOps(nc)) + 1 && treeKept(nc) && logKept(nc) && sentN(nc) == old(sentN(nc))
+//@ extern client.SendNode(nc, node, origin)
+//@   modifies state(nc)
+//@   ensures busOps(nc) == old(busOps(nc)) + 1
+//@ extern github.com/goccy/go-yaml.Unmarshal(data, v)
+//@   modifies pointee(v), allof(data.NodeEdgeChildren), allof(data.Point)
+//@ func ImportNodes$1
+//@   props C15
+//@   summary
+//@   self importHelper
+//@   modifies state(nc)
+//@   decreases treeH(node)
+//@   loop 1:
+//@     invariant -1 <= rangeindex && rangeindex < len(node.Children) || rangeindex == -1
+//@     modifies state(nc)
+//@     decreases len(node.Children) - rangeindex
+//@ func ImportNodes
+//@   props C15
+//@   modifies state(nc), allof(data.NodeEdgeChildren), allof(data.Point)
+//@   assert [C15] top-node-gets-parent: len(imp.Nodes) >= 1 && imp.Nodes[0].Parent == parent at "importHelper(imp.Nodes[0])"
+//@   loop 1:
+//@     invariant -1 <= rangeindex && rangeindex < len(imp.Nodes[0].Points) || rangeindex == -1
+//@     invariant len(imp.Nodes) >= 1 && imp.Nodes[0].Parent == parent && sameSlice(imp.Nodes, preloop(imp.Nodes)) && sameSlice(imp.Nodes[0].Points, preloop(imp.Nodes[0].Points))
+//@     invariant [C15] marker-on-descriptions-only: forall k int :: 0 <= k && k <= rangeindex ==> ((preloop(imp.Nodes[0].Points[k]).Type == "description" ==> imp.Nodes[0].Points[k].Text == preloop(imp.Nodes[0].Points[k]).Text + " (import)") && (preloop(imp.Nodes[0].Points[k]).Type != "description" ==> imp.Nodes[0].Points[k] == preloop(imp.Nodes[0].Points[k])))
+//@     invariant [C15] forall k int :: rangeindex < k && k < len(imp.Nodes[0].Points) ==> imp.Nodes[0].Points[k] == preloop(imp.Nodes[0].Points[k])
+//@     modifies imp.Nodes[0].Points
+//@     decreases len(imp.Nodes[0].Points) - rangeindex
